@@ -401,6 +401,36 @@ def case_from_json(prop, j):
 # ---------------------------------------------------------------------------
 # generated cases
 # ---------------------------------------------------------------------------
+def gen_high_degree(rng):
+    """star host with 7-8 leaves (a few leaves extended by one atom), pattern = the centre with 1-3
+    of its neighbours (symbols possibly blurred to R), anchored centre on centre; the neighbours the
+    pattern needs are inserted AFTER others of a different symbol"""
+    d = rng.choice([7, 7, 8])
+    syms = [rng.choice(["C", "N", "O", "S", "Cl"]) for _ in range(d)]
+    H = nx.Graph()
+    H.add_node(0, symbol=rng.choice(["C", "N", "P"]))
+    order = list(range(1, d + 1))
+    rng.shuffle(order)
+    for i in order:
+        H.add_node(i, symbol=syms[i - 1])
+    for i in order:
+        H.add_edge(0, i, bond=rng.choice([1, 1, 2]))
+    nxt = d + 1
+    for i in order[:2]:
+        if rng.random() < 0.5:
+            H.add_node(nxt, symbol="C")
+            H.add_edge(i, nxt, bond=1)
+            nxt += 1
+    k = rng.randint(1, 3)
+    pick = rng.sample(order[-4:], min(k, 4)) if rng.random() < 0.6 else rng.sample(order, k)
+    P = nx.Graph()
+    P.add_node(0, symbol=H.nodes[0]["symbol"])
+    for j, v in enumerate(pick, 1):
+        P.add_node(j, symbol=("R" if rng.random() < 0.2 else H.nodes[v]["symbol"]))
+        P.add_edge(0, j, bond=H.edges[0, v]["bond"] if rng.random() < 0.9 else 3)
+    return H, 0, P, 0
+
+
 def gen_cases(prop, rng, n):
     """n random (host, pattern, anchors, mapper) inputs -> cases (anchored; every 4th also un-anchored)"""
     cases = []
@@ -433,6 +463,29 @@ def gen_cases(prop, rng, n):
             pkind = "disconnected"
         margs = gen_mapper(rng)
         tags = ("host:" + hkind, "pattern:" + pkind)
+        if not unanch and k % 37 == 5:
+            # a centre with 7-8 neighbours (beyond the degree cap of the random hosts; the pattern
+            # keeps <= 3 neighbours so that the implementation's d! enumeration stays affordable)
+            H, a, P, pa = gen_high_degree(rng)
+            cases.append(anchored_case(prop, H, a, P, pa, (margs[0], margs[1], []), tags=("host:star>=7", "pattern:sub")))
+            continue
+        if not unanch and k % 29 == 7:
+            # the same graph OBJECTS are matched, edited in place, and matched again: the answer
+            # must be the one for the graphs as they are at call time
+            pa0 = rng.choice(list(P.nodes))
+            a0 = rng.choice(list(H.nodes))
+            call_impl(impl_anchored, H, a0, P, pa0, margs)
+            hn = list(H.nodes)
+            if rng.random() < 0.5:
+                H.nodes[rng.choice(hn)]["symbol"] = rng.choice(["N", "O", "C", "S"])
+            else:
+                new = max(hn) + 1
+                H.add_node(new, symbol=rng.choice(["O", "N", "C"]))
+                H.add_edge(rng.choice(hn), new, bond=rng.choice([1, 2]))
+            if rng.random() < 0.3:
+                P.nodes[rng.choice(list(P.nodes))]["symbol"] = rng.choice(["N", "O", "C", "R"])
+            cases.append(anchored_case(prop, H, a0, P, pa0, margs, tags=tags + ("after_in_place_edit",)))
+            continue
         if unanch:
             cases.append(unanchored_case(prop, H, P, margs, tags=tags))
             continue
